@@ -13,9 +13,11 @@ Protocol handler for C02 (variation).
 * `draws`  (and) comma list of `random()` results
 * `tape`   (or) comma list of `r:<bits>` (random), `s:<i>:<j>` (sample → positions), `c:<i>` (choice)
 * `script` `;`-separated recorded operator calls, in call order:
-           `M/<a>/<b>/<ra>/<rb>/<genome a>/<genome b>`  mate called on oids a b, returned ra rb
-           `U/<a>/<ra>/<genome>`                      mutate called on a, returned ra
-           the scripted operator refuses (→ `bad-tape`) a call whose arguments differ from the record.
+           `M/<a>/<b>/<ra>/<rb>/<obj a>/<obj b>/<obj ra>/<obj rb>`  mate called on oids a b, returned ra rb
+           `U/<a>/<ra>/<obj a>/<obj ra>`                            mutate called on a, returned ra
+           (`<obj x>` = `<genome>|<fit>` of object x right after the operator returned; a returned oid that is
+           not an argument is an object the operator allocated.)  The scripted operator refuses (→ `bad-tape`)
+           a call whose arguments differ from the record.
 
 Answer: `off=<oids> cls=<f|i<k>…> objs=<obj;…> par=<obj;…> log=<events>`; `bad-tape` when the tape or
 the script does not fit the model's run, `assert` for varOr's `cxpb + mutpb <= 1.0`, `bad-op` on
@@ -25,27 +27,27 @@ namespace DriverC02
 open Proto Variation
 
 inductive Call where
-  | mate (a b ra rb : Nat) (ga gb : List Int)
-  | mutate (a ra : Nat) (g : List Int)
+  | mate (a b ra rb : Nat) (oa ob ora orb : Obj)
+  | mutate (a ra : Nat) (oa ora : Obj)
 
 structure Script where
   calls : List Call
   ok : Bool := true
 
 def scripted : Ops Script where
-  mate := fun t h a b =>
+  mate := fun t h n a b =>
     match t.ok, t.calls with
-    | true, Call.mate a' b' ra rb ga gb :: rest =>
+    | true, Call.mate a' b' ra rb oa ob ora orb :: rest =>
       if a = a' ∧ b = b' then
-        ⟨⟨rest, true⟩, (h.set a { h a with genome := ga }).set b { h b with genome := gb }, ra, rb⟩
-      else ⟨⟨rest, false⟩, h, a, b⟩
-    | _, _ => ⟨⟨[], false⟩, h, a, b⟩
-  mutate := fun t h a =>
+        ⟨⟨rest, true⟩, (((h.set a oa).set b ob).set ra ora).set rb orb, max n (max (ra + 1) (rb + 1)), ra, rb⟩
+      else ⟨⟨rest, false⟩, h, n, a, b⟩
+    | _, _ => ⟨⟨[], false⟩, h, n, a, b⟩
+  mutate := fun t h n a =>
     match t.ok, t.calls with
-    | true, Call.mutate a' ra g :: rest =>
-      if a = a' then ⟨⟨rest, true⟩, h.set a { h a with genome := g }, ra⟩
-      else ⟨⟨rest, false⟩, h, a⟩
-    | _, _ => ⟨⟨[], false⟩, h, a⟩
+    | true, Call.mutate a' ra oa ora :: rest =>
+      if a = a' then ⟨⟨rest, true⟩, (h.set a oa).set ra ora, max n (ra + 1), ra⟩
+      else ⟨⟨rest, false⟩, h, n, a⟩
+    | _, _ => ⟨⟨[], false⟩, h, n, a⟩
 
 def parseObj (s : String) : Option Obj :=
   match s.splitOn "|" with
@@ -60,11 +62,11 @@ def parseHeap (s : String) : Option (List Obj) :=
 
 def parseCall (s : String) : Option Call :=
   match s.splitOn "/" with
-  | ["M", a, b, ra, rb, ga, gb] => do
+  | ["M", a, b, ra, rb, oa, ob, ora, orb] => do
     some (Call.mate (← parseNat a) (← parseNat b) (← parseNat ra) (← parseNat rb)
-      (← parseList parseInt ga) (← parseList parseInt gb))
-  | ["U", a, ra, g] => do
-    some (Call.mutate (← parseNat a) (← parseNat ra) (← parseList parseInt g))
+      (← parseObj oa) (← parseObj ob) (← parseObj ora) (← parseObj orb))
+  | ["U", a, ra, oa, ora] => do
+    some (Call.mutate (← parseNat a) (← parseNat ra) (← parseObj oa) (← parseObj ora))
   | _ => none
 
 def parseScript (s : String) : Option (List Call) :=
